@@ -99,6 +99,15 @@ Definition decode_int (long_bits : Z) (o : Z) : Z :=
   else
     if value <=? 2 ^ (long_bits - 1) - 1 then wrap_signed long_bits value else value.
 
+(* the C side alone: realize_global_int on the stored (neg, value); the stored pair itself is REGENERATED from
+   ffiobj_init into C11/Gen.v (gen_intconst_neg, gen_intconst_value) *)
+Definition realize_global_int (long_bits : Z) (neg : bool) (value : Z) : Z :=
+  if neg then
+    let sv := wrap_signed 64 value in
+    if - 2 ^ (long_bits - 1) <=? sv then wrap_signed long_bits value else sv
+  else
+    if value <=? 2 ^ (long_bits - 1) - 1 then wrap_signed long_bits value else value.
+
 (* ---- array length: length = (Py_ssize_t)opcodes[index + 1], the raw 4-byte value *)
 Definition decode_len (bs : list Z) : Z := cdl_4bytes bs.
 
